@@ -23,7 +23,7 @@ def sample_cases(path, k=3, pred=None):
 
 def run_cmdline_property(v, family, design_cfg, replay_cfg="MC_CmdLine_replay.cfg", module="MC_CmdLine",
                          signature=None, judge=None, driver=None, transform=None, name=None,
-                         extra_files=(), enrich=None):
+                         extra_files=(), enrich=None, trace_module="CmdLineTrace"):
     """returns coverage dict pieces; v is the Verdict"""
     name = name or v.pid
     ensure_dirs()
@@ -78,13 +78,13 @@ def run_cmdline_property(v, family, design_cfg, replay_cfg="MC_CmdLine_replay.cf
     # 4. impl -> spec beyond the exhaustive bound
     tv = 0
     if driver:
-        tv = run_driver(v, hbin, driver, name, signature)
+        tv = run_driver(v, hbin, driver, name, signature, trace_module)
     cov["traces_validated_against_impl"] = summ["cases"] + tv
     cov["driver_records_validated_by_tlc"] = tv
     return cov
 
 
-def run_driver(v, hbin, driver, name, signature):
+def run_driver(v, hbin, driver, name, signature, trace_module="CmdLineTrace"):
     """driver = dict(defs=[...], n=int, maxlen=int, judge=optional)"""
     rnd = random.Random(SEED * 7919 + 13)
     ddefs = driver["defs"]
@@ -122,7 +122,7 @@ def run_driver(v, hbin, driver, name, signature):
                    "pjson": json.dumps(g.get("path") or [], separators=(",", ":"))}
             w.write(json.dumps({"def": r["def"], "line": r["line"], "env": r.get("env") or {}, "got": got,
                                 "argv": r["argv_bytes"]}) + "\n")
-    r = run_tlc("CmdLineTrace", "CmdLineTrace.cfg", env={"TRACE": slim, "DEFS": dpath}, workers=1,
+    r = run_tlc(trace_module, trace_module + ".cfg", env={"TRACE": slim, "DEFS": dpath}, workers=1,
                 extra_java="-Xss1g -Dtlc2.tool.queue.IStateQueue=StateDeque", timeout=1800)
     rej = [l for l in open(r["out"], errors="replace") if "REJECT" in l]
     if rej or not r["ok"]:
